@@ -314,6 +314,23 @@ def check_reader(rep, facts, cg, pv, reach):
                           '/'.join(sorted(searched)), ' and '.join({'Dir': 'the -i directories are', 'AdjDir': 'the directory of the file being read is'}[m] for m in missing)),
                           line=n0.lineno))
     rep.analysed['include search sites'] = n_search
+    # the adjacent directory is the directory of the file *as named*: dirname(realpath(file)) is the directory of a link's target
+    for q in sorted(pv.reach(reader)):
+        for n in walk_fn(cg.funcs[q]):
+            if isinstance(n, ast.Call) and dotted(n.func) == 'os.path.dirname' and n.args:
+                arg = n.args[0]
+                cands = [arg]
+                if isinstance(arg, ast.Name):
+                    cands = [v for h, v in pv.reaching(q, arg) if h[0] == 'expr']
+                for c in cands:
+                    inner = c
+                    while isinstance(inner, ast.Call) and dotted(inner.func) in ('os.path.abspath', 'os.path.normpath', 'str', 'os.fspath') and inner.args:
+                        inner = inner.args[0]
+                    links = (isinstance(inner, ast.Call) and dotted(inner.func) in ('os.path.realpath', 'os.readlink')) or \
+                        (isinstance(inner, ast.Call) and isinstance(inner.func, ast.Attribute) and inner.func.attr == 'resolve' and not inner.args)
+                    if links and set(pv.kinds(inner, q)) & {'Resolved', 'UserGiven'} and 'AdjDir' in pv.kinds(n, q) and not only_reported(n):
+                        rep.fail(Finding('R14.2.link-followed', q, n, 'the adjacent directory is computed as {}: for a file that is a symbolic link this is the directory of the '
+                                         'link target, not the directory the file was named in'.format(unparse(n)[:70]), line=n.lineno), instance='adjacent ' + unparse(n)[:50])
 
     # R14.2.dirs-copied: the list object the API caller passed is never changed in place
     shared = caller_object_params(pv, cg, reach, [('assemble', p) for p in pv.params(cg.funcs['assemble'])
@@ -511,8 +528,10 @@ def located_path(value, path=None):
         return ('memo', v[1], v[2])
     if v[0] == 'mcall' and v[2] == 'get' and v[3]:
         return ('memo', v[1], v[3][0])
-    if v[0] == 'call' and v[1] in ('str', 'os.path.abspath', 'os.path.normpath', 'os.fspath') and len(v[2]) == 1:
+    if v[0] == 'call' and v[1] in ('str', 'os.path.abspath', 'os.path.normpath', 'os.fspath', 'os.path.realpath') and len(v[2]) >= 1:
         return located_path(v[2][0], path)
+    if v[0] == 'mcall' and v[2] in ('resolve', 'absolute') and not v[3]:
+        return located_path(v[1], path)
     if v[0] == 'ifexp':
         # `p if os.path.exists(p) else None`
         for branch in (v[2], v[3]):
@@ -524,10 +543,31 @@ def located_path(value, path=None):
     return None
 
 
-def check_located(rep, facts, where, path, located, shared_with, node):
-    """R14.1.operand / R14.1.memo for the path value of one include / include_bytes line (see the callers)."""
-    loc = located_path(normalise(facts, located), path)
+def follows_links(v):
+    """The outermost conversions of a path value that follow symbolic links: os.path.realpath(p), Path(p).resolve(), os.readlink(p)."""
+    v = strip_res(v)
+    while True:
+        if v[0] == 'call' and v[1] in ('os.path.realpath', 'os.readlink') and v[2]:
+            return v
+        if v[0] == 'mcall' and v[2] == 'resolve':
+            return v
+        if v[0] == 'call' and v[1] in ('str', 'os.path.abspath', 'os.path.normpath', 'os.fspath') and len(v[2]) == 1:
+            v = strip_res(v[2][0])
+            continue
+        return None
+
+
+def check_located(rep, facts, where, path, located, shared_with, node, kind='include'):
+    """R14.1.operand / R14.1.memo / R14.2.link-followed for the path value of one include / include_bytes line (see the callers)."""
     line = getattr(node, 'lineno', None)
+    link = follows_links(normalise(facts, located)) if kind == 'include' else None
+    if link is not None:
+        # positively wrong: the nested read derives its adjacent directory from this path
+        rep.fail(Finding('R14.2.link-followed', where, node, 'the nested read is handed {}: for an included file that is (or lies behind) a symbolic link the '
+                         'directory of the link *target* becomes the adjacent directory, so its own includes are searched next to the target instead of next to the '
+                         'file as it was named (os.path.abspath / normpath keep the name, realpath / resolve() do not)'.format(show(link)[:70]), line=line),
+                 instance='link ' + show(link)[:50])
+    loc = located_path(normalise(facts, located), path)
     if loc is None:
         return 'unknown'
     if loc[0] == 'memo':
@@ -647,7 +687,7 @@ def include_operands(rep, facts, where, path, recs, node):
                 found.append((g[2][0], [x for r in recs for x in (r[2] if r[0] == 'call' else r[3])] + ALL_REC_ARGS[0], 'include_bytes'))
     out = []
     for located, shared_with, kind in found:
-        verdict = check_located(rep, facts, where, path, located, shared_with, node)
+        verdict = check_located(rep, facts, where, path, located, shared_with, node, kind)
         if verdict == 'unknown':
             # never a silent pass: every located path must be followed back to the text of the line
             defer(rep, '{}: the file name behind `{}` on the path [{}] could not be followed back to the text of the line: no verdict'.format(
